@@ -27,6 +27,7 @@ def cases(draw, mode, nums=("frac",), tmax=2):
     c = draw(gen.curves(0, 3, 3, nums=nums, rational=draw(st.integers(0, 4)) < 2))
     t = draw(st.integers(1, tmax))
     return {"curve": c, "t": t, "mode": mode, "via": draw(st.sampled_from(["method", "setter"])),
+            "twin_first": draw(st.integers(0, 2)) == 0,
             "tolerance": draw(st.sampled_from(["default", "default", "none"])),
             "badtimes": draw(st.sampled_from([0, -1, "1.5", "a"]))}
 
@@ -80,6 +81,13 @@ def check_elevate(case, out):
     except TypeError:
         if not isinstance(bad, str) or lib.snapshot(curve) != snap:
             out.fail("invalid-times-wrong-exception", klass, f"degree_increase({bad!r}) raised TypeError")
+    if exact and case.get("twin_first"):
+        out.cls("float-twin-first")
+        try:
+            lib.build_curve(dict(c, num="float")).degree_increase(t)
+        except Exception as exc0:
+            if not lib.from_library(exc0):
+                raise
     curve = lib.build_curve(c)
     if case["via"] == "method":
         curve.degree_increase(t)
@@ -190,6 +198,14 @@ def check_generic(case, out):
         out.cls("special=" + case["special"])
         klass = kind + ";" + case["special"]
     curve = lib.build_curve(c)
+    if case.get("twin_first") and feasible:
+        # history: an unconstrained projection between the same two knot vectors happened before (stale caches)
+        out.cls("decoy-projection-first")
+        try:
+            lib.Curve(list(newU)).fit_curve(curve)
+        except Exception as exc0:
+            if not lib.from_library(exc0):
+                raise
     snap = lib.snapshot(curve)
     tol = case["tolerance"]
     try:
